@@ -105,7 +105,7 @@ func main() {
 
 	debug.SetGCPercent(400)
 	eng := loadEngine(*repo, strings.Split(*pkgs, ","), overlays)
-	cfg := &Config{Harness: *harness, Bounds: map[string]int64{}, MaxSteps: *maxSteps, MaxDepth: 400, MaxGoroutines: 64,
+	cfg := &Config{Harness: *harness, Bounds: map[string]int64{}, MaxSteps: *maxSteps, MaxDepth: 400, MaxGoroutines: 512,
 		MaxPaths: *maxPaths, MaxSeconds: *maxSec, Workers: *workers, SolverArgv: strings.Fields(*solver), FallbackArgv: strings.Fields(*fallback), TimeoutMs: *timeout,
 		SchedExplore: *sched, SchedPolicy: *policy, MaxPreempt: *preempt, Race: *race, ConcBound: *concBound, trackFns: true, Trace: *trace,
 		OpenClasses: map[string]bool{}, SampleEvery: *sampleEvery, BranchSites: *bsites}
